@@ -293,14 +293,14 @@ Definition h_ttl (now : Z) (d : db) (parts : list frame) : frame * db :=
       | None => (r_int (if eng_exists now d k then -1 else -2), d)
       end
   end.
-(** PTTL: an expired unswept entry answers 0 *)
+(** PTTL: an expired unswept entry answers 0; the millisecond count saturates at i64::MAX *)
 Definition h_pttl (now : Z) (d : db) (parts : list frame) : frame * db :=
   if negb (nparts parts =? 2) then (r_err, d) else
   match nth_arg parts 1 with
   | None => (r_err, d)
   | Some k =>
       match eng_ttl now d k with
-      | Some rem => (r_int rem, d)
+      | Some rem => (r_int (Z.min rem i64_max), d)
       | None => (r_int (if eng_exists now d k then -1 else -2), d)
       end
   end.
@@ -406,12 +406,14 @@ Definition h_strlen (d : db) (parts : list frame) : frame * db :=
       end
   end.
 
-(** engine.rs getrange after 9f58b0e: signed normalisation *)
+(** engine.rs getrange after 9f58b0e + the Redis-normalisation follow-up *)
 Definition getrange_bytes (b : bytes) (start stop : Z) : bytes :=
   let n := len b in
+  if (start <? 0) && (stop <? 0) && (stop <? start) then [] else
   let s := if start <? 0 then Z.max 0 (n + start) else start in
-  let e := if stop <? 0 then n + stop else Z.min stop (n - 1) in
-  if (e <? s) || (n <=? s) then [] else zfirstn (e - s + 1) (zskipn s b).
+  let e0 := if stop <? 0 then Z.max 0 (n + stop) else stop in
+  let e := Z.min e0 (n - 1) in
+  if (n =? 0) || (e <? s) then [] else zfirstn (e - s + 1) (zskipn s b).
 
 Definition h_getrange (d : db) (parts : list frame) : frame * db :=
   if negb (nparts parts =? 4) then (r_err, d) else
